@@ -973,6 +973,10 @@ pub fn reduce_conjoin_inventory(ops: Ops, env: &mut Uiua) -> UiuaResult {
             env.pop("accumulator")
         })?
     };
+    // Joining the contents of boxes gives at least a list, even from a single scalar
+    if acc.rank() == 0 {
+        acc.shape.prepend(1);
+    }
     env.without_fill(|env| -> UiuaResult {
         for _ in 1..row_count {
             for arg in rows.iter_mut().rev() {
